@@ -61,7 +61,9 @@ def run(ctx: Ctx, extended: bool = False) -> None:
         # ---------------- gym adapter
         g = JumanjiToGymWrapper(env, seed=seed)
         ops: List[Any] = []
-        script = ["reset"] + ["step"] * nsteps + ["reset", "step", "step", {"reset_seed": seed + 7}, "step", {"seed": seed}, "reset"] + ["step"] * 2
+        # includes re-seeding with 0 (a falsy seed) after the key has moved on, and with the constructor seed
+        script = (["reset"] + ["step"] * nsteps + ["reset", "step", "step", {"reset_seed": seed + 7}, "step", {"reset_seed": 0}, "step", "reset", "step",
+                  {"seed": 0}, "reset", "step", {"seed": seed}, "reset"] + ["step"] * 2)
         sched = drv.call("wrappers.gym_schedule", seed=seed, ops=[o for o in script])
         ri = 0
         state = None
@@ -85,7 +87,7 @@ def run(ctx: Ctx, extended: bool = False) -> None:
                 (replay_episode if reseeded else first_episode).append(("reset", obs))
             elif isinstance(op, dict) and "seed" in op:
                 g.seed(op["seed"])
-                reseeded = True
+                reseeded = op["seed"] == seed
                 replay_episode = []
             else:
                 a = g.action_space.sample() if rng.random() < 0.5 else np.asarray(sample_action(env, rng))
